@@ -53,6 +53,10 @@ def rules(t):
         ktxt = fmt(resolved(t, t.arg(c, 1), g))
         vec_locals = [l["i"] for l in pp.locals if l.get("name") == "new_acks"]
         src = [fmt(v) for l in vec_locals for _, v in pushed_into(t, pp, l)]
+        # the list grown by `extend(sent_packets.range(r).map(|(&seq, _)| seq))` instead of a push loop
+        from rules.wave6 import _root_local
+        for c2 in t.sites(pp):
+            if c2.node["k"] == "call" and len(c2.node["args"]) == 2 and method_of(callee_name(c2.node)) in ("extend", "extend_from_slice", "append") and _root_local(pp, c2.node["args"][0]) in vec_locals: src.append(fmt(t.arg(c2, 1)))
         via_range = "::range(" in ktxt or (src and all("::range(" in s_ or "Range" in s_ for s_ in src))
         via_chain = ("collect(" in ktxt or "flat_map" in ktxt) and any(g2 is not pp for _, g2 in rng_ok) and "ack_ranges" in ktxt
         if not (via_range or via_chain): r.bad("keys", c, f"removed keys do not originate from sent_packets.range(..): {ktxt[:80]}")
@@ -111,4 +115,11 @@ def rules(t, *a, **kw):
     out = _rules_C08_w6(t, *a, **kw)
     out.append(W6.stale_index(t, "C08.l"))
     out.append(W6.ack_record_value(t, "C08.m"))
+    return out
+
+_rules_C08_w7b = rules
+def rules(t, *a, **kw):
+    import rules.wave7 as W7
+    out = _rules_C08_w7b(t, *a, **kw)
+    out.append(W7.sent_record_removers(t, "C08.n"))
     return out
